@@ -1,14 +1,61 @@
 /-
 Props/C07.lean — property C07: the Writer preserves per-partition submission order, also across retries.
-Property theorems only; invariants and helper lemmas live in Lemmas/WriterInv.lean / Lemmas/WriterOrder.lean.
+Property theorems only; the invariant `InvOrd` and its preservation proof live in Lemmas/WriterOrder.lean.
+
+Model: Model/Writer.lean.  Ghost data used by the statements: every `add` (the append inside
+(*partitionWriter).writeMessages, under w.mutex + ptw.mutex) stamps the message with the global submission
+counter `s.seq`; every log entry carries the stamp and the batch it was copied from.
+All theorems hold for every configuration and every reachable state (= every finite event sequence the LTS
+accepts: any number of callers, partitions, batch settings, faults, retries, timer firings, Close).
 -/
-import KafkaVerif.Lemmas.WriterInv
+import KafkaVerif.Lemmas.WriterOrder
 
 namespace KV.C07
 open KV KV.Writer
 
+/-- **order_preserved** — in the log of every topic-partition, for every pair of entries x before y: x was
+submitted before y (smaller stamp), or both are copies out of the same batch (a retry after a lost
+acknowledgement re-appends the whole batch).  Hence every copy of an earlier-submitted message that sits in a
+different batch precedes every copy of a later one — across retries, timer flushes, size flushes and Close. -/
+theorem order_preserved (cfg : Cfg) (s : State) (hr : Reachable cfg s) (tp : TP) :
+    (s.log tp).Pairwise (fun x y => x.seq < y.seq ∨ x.batch = y.batch) :=
+  (invOrd cfg s hr).logOrd tp
+
+/-- **batch_internal_order** — inside a batch the messages are in submission order (so each copy is, too). -/
+theorem batch_internal_order (cfg : Cfg) (s : State) (hr : Reachable cfg s) (b : Nat) (B : Batch)
+    (hB : s.batches b = some B) : B.msgs.Pairwise (fun m m' => m.seq < m'.seq) :=
+  (invOrd cfg s hr).sorted b B hB
+
+/-- **one_sender_per_partition** — there is never a second partition writer (hence a second sending goroutine)
+for a topic-partition.  (False in D1's window of the original code; `newPW` requires `closed = false` and an
+empty slot, which is what the `fix:` commits in /repo establish.) -/
+theorem one_sender_per_partition (cfg : Cfg) (s : State) (hr : Reachable cfg s) (pw pw' : Nat) (P P' : PW)
+    (h : s.pws pw = some P) (h' : s.pws pw' = some P') (htp : P.tp = P'.tp) : pw = pw' := by
+  have h1 := (invOrd cfg s hr).uniq pw P h
+  have h2 := (invOrd cfg s hr).uniq pw' P' h'
+  rw [htp, h2] at h1; cases h1; rfl
+
+/-- **copies_are_whole_batches** — an applied produce attempt appends exactly the messages of the batch being
+sent, in batch order, to the log of that batch's topic-partition, and nothing else changes in any log. -/
+theorem copies_are_whole_batches (cfg : Cfg) (s s' : State) (pw : Nat) (tp : TP) (msgs : List Msg) (out : BrOut)
+    (hs : step cfg s (.produce pw tp msgs out) = some s') :
+    ∃ b B, s.batches b = some B ∧ B.msgs.map (·.msg) = msgs ∧
+      s'.log tp = (if out.applied then s.log tp ++ mkEntries pw b B else s.log tp) ∧
+      (mkEntries pw b B).map (·.msg) = msgs ∧ ∀ t, t ≠ tp → s'.log t = s.log t := by
+  simp only [step, stepProduce] at hs
+  repeat' split at hs
+  all_goals (first | (cases hs; done) | skip)
+  rename_i _ P hP _ b k hsend _ B hB hg
+  obtain ⟨-, -, -, hm⟩ := hg
+  cases hs
+  refine ⟨b, B, hB, hm, ?_, ?_, ?_⟩
+  · cases h : out.applied <;> simp [produced, h]
+  · simp [mkEntries, ← hm]
+  · intro t ht
+    cases h : out.applied <;> simp [produced, h, upd_other _ _ _ _ ht]
+
 /-- **sender_takes_head** (FIFO) — the partition writer's goroutine only ever takes the head of its queue, and only
-when it is idle (the previous batch, with all its attempts, has completed). -/
+when it is idle, i.e. after the previous batch — with all its attempts — has completed. -/
 theorem sender_takes_head (cfg : Cfg) (s s' : State) (q b : Nat) (hs : step cfg s (.qget q (some b)) = some s') :
     ∃ pw P, s.qOf q = some pw ∧ s.pws pw = some P ∧ P.sender = .idle ∧ P.queue.head? = some b ∧
       s'.pws pw = some { P with queue := P.queue.tail, sender := .ready b 0 } := by
@@ -18,5 +65,50 @@ theorem sender_takes_head (cfg : Cfg) (s s' : State) (q b : Nat) (hs : step cfg 
   rename_i _ pw hq _ P hP hg
   cases hs
   exact ⟨pw, P, hq, hP, hg.1, hg.2, by simp⟩
+
+/-- **add_in_index_order** — within one call, a message is appended to its partition's batch only after every
+earlier index of the call that goes to the same partition has been appended (so stamps follow the index
+order); across successive calls of one goroutine the stamps follow the call order because the counter only
+grows (`stamp_is_fresh`). -/
+theorem add_in_index_order (cfg : Cfg) (s s' : State) (pw b c i size : Nat)
+    (hs : step cfg s (.add pw b c i size) = some s') :
+    ∃ P C, s.pws pw = some P ∧ s.calls c = some C ∧ C.assign[i]? = some P.tp ∧
+      ∀ j, j < i → C.assign[j]? = some P.tp → (C.place j).isSome = true := by
+  simp only [step, stepAdd] at hs
+  repeat' split at hs
+  all_goals (first | (cases hs; done) | skip)
+  rename_i _ P hP _ B hB _ C hC hg
+  obtain ⟨-, -, -, -, -, -, -, -, -, hassign, -, -, hall⟩ := hg
+  refine ⟨P, C, hP, hC, hassign, ?_⟩
+  intro j hj hja
+  rw [List.all_eq_true] at hall
+  have := hall j (List.mem_range.mpr hj)
+  simpa [hja] using this
+
+/-- **stamp_is_fresh** — the stamp given by `add` is larger than the stamp of every message added before and of
+every entry already in any log. -/
+theorem stamp_is_fresh (cfg : Cfg) (s : State) (hr : Reachable cfg s) :
+    (∀ b B, s.batches b = some B → ∀ m ∈ B.msgs, m.seq < s.seq) ∧ (∀ tp, ∀ x ∈ s.log tp, x.seq < s.seq) :=
+  ⟨(invOrd cfg s hr).counterB, (invOrd cfg s hr).counterL⟩
+
+/-! ### non-vacuity: a concrete run with a retry after a lost acknowledgement while a later batch is queued -/
+
+def exCfg : Cfg :=
+  { batchSize := 1, batchBytes := 1000, maxAttempts := 3, async := true, completion := false, topic := "t",
+    retriable := fun c => c == 1003 }
+
+def exTrace : List Event :=
+  [ .enter true, .begin_ 1 [{ size := 45, topic := "" }], .assign 1 0 ("t", 0), .batch 1, .newPW 1 1 ("t", 0),
+    .newBatch 1 1, .add 1 1 1 0 45, .detach 1 1 .full 0, .qput 1 1 true, .batched 1, .ret 1 .async,
+    .enter true, .begin_ 2 [{ size := 45, topic := "" }], .assign 2 0 ("t", 0), .batch 2,
+    .newBatch 1 2, .add 1 2 2 0 45, .detach 1 2 .full 0, .qget 1 (some 1), .attempt 1 1 0, .qput 1 2 true, .batched 2,
+    .ret 2 .async,
+    .produce 1 ("t", 0) [(1, 0)] (.lost true), .attemptDone 1 1 0 1003, .attempt 1 1 1,
+    .produce 1 ("t", 0) [(1, 0)] .acked, .attemptDone 1 1 1 0, .complete 1 1 0,
+    .qget 1 (some 2), .attempt 1 2 0, .produce 1 ("t", 0) [(2, 0)] .acked, .attemptDone 1 2 0 0, .complete 1 2 0 ]
+
+/-- the run is accepted, and its log holds two copies of the first batch followed by the second batch -/
+example : ((run exCfg State.init exTrace).map (fun s => (s.log ("t", 0)).map (fun e => (e.msg, e.seq, e.batch)))) =
+    some [((1, 0), 0, 1), ((1, 0), 0, 1), ((2, 0), 1, 2)] := by decide
 
 end KV.C07
